@@ -16,9 +16,9 @@ RULE += '; plus the node obtained as cap / equal copy / write-cap+read-cap / via
 TECHNIQUE = "deterministic simulation: seeded operation histories and delivery schedules vs byte-array reference model and on-disk ground truth"
 LEVEL_TEXT = "seeded search over histories, configurations, schedules and fault placements; sampling, not enumeration"
 LEVEL_NOTE = ("real: allmydata.client._Client, nodemaker, mutable.filenode/publish/retrieve/servermap/layout, storage server; stub: reactor, foolscap wire "
-              "(SimRef), os.urandom, RSA key generation (committed pool of 2048-bit keys), CPU thread pool (synchronous); ground truth is read from the servers' disks")
+              "(SimRef), os.urandom, RSA key generation (committed pool of 2048-bit keys), CPU thread pool (simulated: synchronous, or completion as a reactor event after a drawn delay); ground truth is read from the servers' disks")
 REAL = ["allmydata.client._Client", "nodemaker", "mutable.filenode", "mutable.publish", "mutable.retrieve", "mutable.servermap", "mutable.layout", "storage.server", "storage.mutable"]
-STUB = ["reactor/time", "foolscap transport (SimNet/SimRef)", "os.urandom", "RSA keygen (pool)", "cputhreadpool (synchronous)"]
+STUB = ["reactor/time", "foolscap transport (SimNet/SimRef)", "os.urandom", "RSA keygen (pool)", "cputhreadpool (SimThreadPool: in a third of the runs the result is delivered by a reactor event after a drawn delay, otherwise synchronously)"]
 ASSUMPTIONS = ["per-connection FIFO delivery (TCP)", "RSA-PSS signatures are randomised (OpenSSL RNG) and excluded from digests"]
 
 
